@@ -117,6 +117,11 @@ impl<R: Read + Seek> ReadBox<&mut R> for MetaBox {
             let header = BoxHeader::read(reader)?;
             let BoxHeader { name, size: s } = header;
 
+            // Break if size zero BoxHeader, which can result in dead-loop.
+            if s == 0 {
+                break;
+            }
+
             match name {
                 BoxType::HdlrBox => {
                     hdlr = Some(HdlrBox::read_box(reader, s)?);
@@ -147,6 +152,11 @@ impl<R: Read + Seek> ReadBox<&mut R> for MetaBox {
                     let header = BoxHeader::read(reader)?;
                     let BoxHeader { name, size: s } = header;
 
+                    // Break if size zero BoxHeader, which can result in dead-loop.
+                    if s == 0 {
+                        break;
+                    }
+
                     match name {
                         BoxType::IlstBox => {
                             ilst = Some(IlstBox::read_box(reader, s)?);
@@ -169,6 +179,11 @@ impl<R: Read + Seek> ReadBox<&mut R> for MetaBox {
                     // Get box header.
                     let header = BoxHeader::read(reader)?;
                     let BoxHeader { name, size: s } = header;
+
+                    // Break if size zero BoxHeader, which can result in dead-loop.
+                    if s == 0 {
+                        break;
+                    }
 
                     match name {
                         BoxType::HdlrBox => {
